@@ -375,6 +375,8 @@ def _gen_concatenate(g):
         s = list(shape)
         s[axis] = g.rng.choice([1, 2, 3, shape[axis]])
         shapes.append(tuple(s))
+    if g.rng.random() < 0.12:
+        axis = None  # numpy flattens every operand first (also a single one)
     return {"operands": same_family(g, count, shapes), "kw": {"axis": axis}}
 
 
@@ -597,12 +599,19 @@ Op("full", "create", _gen_full,
 def _gen_full_like(g):
     shape = nd_shape(g)
     kind = g.rng.choice(G.KINDS)
-    return {"operands": [poly_of(g, shape, kind=kind), poly_of(g, (), kind=kind)], "kw": {}}
+    kw = {}
+    if g.rng.random() < 0.3:
+        kw["shape"] = list(g.rng.choice([(), (), (2,), (1, 3)]))  # an override, () is a valid one
+    return {"operands": [poly_of(g, shape, kind=kind), poly_of(g, (), kind=kind)], "kw": kw}
+
+
+def _full_like_kw(kw):
+    return {"shape": tuple(kw["shape"])} if "shape" in kw else {}
 
 
 Op("full_like", "create", _gen_full_like,
-   lambda ns, ops, kw: ns.full_like(ops[0], ops[1]),
-   lambda mods, kw: M.oarray(mods[0].shape, mods[1][()]))
+   lambda ns, ops, kw: ns.full_like(ops[0], ops[1], **_full_like_kw(kw)),
+   lambda mods, kw: M.oarray(tuple(kw["shape"]) if "shape" in kw else mods[0].shape, mods[1][()]))
 
 
 def _gen_getitem(g):
